@@ -440,10 +440,18 @@ Definition ar_load (at_ : ar_rule -> ar_target -> option (list ar_obj)) (inv : l
 Definition ar_apply (genv : ar_env) (inv : list ar_host) (rules : list ar_rule) : option (list ar_obj) :=
   ar_load (ar_eval_rule false genv) inv rules.
 
-(* AddRule: which name list the rule is indexed under (no constants at config load) *)
+(* AddRule: which name list the rule is indexed under (no constants at config load).  A rule whose
+   for-loop variable is named host/service is never indexed (applyrule.cpp: shadowsTarget) *)
+Definition ar_is_target_var (x : ar_str) : bool := ar_str_eqb x ar_s_host || ar_str_eqb x ar_s_service.
+Definition ar_shadows_target (r : ar_rule) : bool :=
+  match ar_r_for r with
+  | None => false        (* fkvar = fvvar = "" *)
+  | Some (fk, fv, _) => ar_is_target_var fk || ar_is_target_var fv
+  end.
 Inductive ar_index := AIRegular | AIHosts (ns : list ar_str) | AIServices (ps : list (ar_str * ar_str)).
 Definition ar_rule_index (r : ar_rule) : ar_index :=
-  if ar_r_to_svc r then
+  if ar_shadows_target r then AIRegular
+  else if ar_r_to_svc r then
     match ar_target_services None (ar_r_filter r) with Some ps => AIServices ps | None => AIRegular end
   else
     match ar_target_hosts None (ar_r_filter r) with Some ns => AIHosts ns | None => AIRegular end.
@@ -498,9 +506,15 @@ Definition ar_find_full (inv : list ar_host) (to_svc : bool) (full : ar_str) : l
   | None => []
   end.
 
+(* filter_vars named obj/host/service are overwritten by EvaluateFilter: then no fast path
+   (filterutility.cpp: shadowedVars; variableName is empty for GetFilterTargets' default argument) *)
+Definition ar_api_vars_ok (fvars : list (ar_str * ar_value)) : bool :=
+  forallb (fun kv => negb (ar_is_target_var (fst kv) || ar_str_eqb (fst kv) ar_s_obj)) fvars.
+
 Definition ar_api_fast (genv : ar_env) (inv : list ar_host) (to_svc : bool) (fvars : list (ar_str * ar_value))
            (f : ar_expr) : option (list (ar_str * ar_str)) :=
-  if to_svc then
+  if negb (ar_api_vars_ok fvars) then ar_api_plain genv inv to_svc fvars f
+  else if to_svc then
     match ar_target_services (Some fvars) f with
     | Some ps => Some (flat_map (fun p => ar_find_full inv true (fst p ++ ar_bang :: snd p)) ps)
     | None => ar_api_plain genv inv to_svc fvars f
